@@ -147,11 +147,11 @@ class BuildCheckpointState(BuildCheckpointStateModel):
         p.prove(to_real(meta.d["beta"]) == g["beta"] if ok else z3.BoolVal(False), f"{q}:C11:C12:C08:payload carries the exact temperature (a resumed run computes its next ratio from it)")
         h = d.get("history")
         is_copy = isinstance(h, Obj) and h is not g["hist"] and getattr(h, "copy_of", None) is g["hist"]
-        p.prove(z3.BoolVal(is_copy), f"{q}:C11:C08:C18:payload history is a copy of the sampler's history, not the live object")
+        p.prove(z3.BoolVal(is_copy), f"{q}:C11:C08:C18:C06:payload history is a copy of the sampler's history, not the live object")
         if isinstance(h, Obj):
             for nm in ALL_SERIES + ["sample_history"]:
                 a, b = h.f.get(nm), g["hist"].f.get(nm)
-                p.prove(z3.BoolVal(a is not None and a is not b), f"{q}:C11:C08:C18:payload series `{nm}` does not alias the live list (later appends must not reach the checkpoint)")
+                p.prove(z3.BoolVal(a is not None and a is not b), f"{q}:C11:C08:C18:C06:payload series `{nm}` does not alias the live list (later appends must not reach the checkpoint: a resume from the in-memory dictionary would see a temperature recorded twice or skip the rest of the schedule)")
                 if isinstance(a, SymList) and isinstance(b, SymList):
                     p.prove(a.len == b.len, f"{q}:C11:C18:payload series `{nm}` has the entries recorded so far")
         if g["shape"]["bitgen"]:
